@@ -16,7 +16,12 @@ for un in units.all_units():
         print('%-40s BROKEN %s' % (un, e)); continue
     for h in mod.HARNESSES:
         jobs.append((mod, h, ctext, info))
-jobs.sort(key=lambda j: -j[1].timeout if j[1].method.startswith('LC') else 0)
+import json
+try:
+    _costs = json.load(open(os.path.join(os.path.dirname(os.path.abspath(__file__)), 'costs.json')))
+except Exception:
+    _costs = {}
+jobs.sort(key=lambda j: -_costs.get('%s/%s' % (j[0].NAME, j[1].name), 1.0))
 with ThreadPoolExecutor(16) as ex:
     futs = [ex.submit(units.run_harness, *j) for j in jobs]
     for f in futs:
